@@ -2,7 +2,7 @@
    [vm_compute] evaluation inside coqc run exactly the same function.
    A case is a list of numbers; the first is the case kind. *)
 From Coq Require Import NArith List Bool.
-From PDB Require Import Model.IndexPage Model.Pipeline Model.Meta.
+From PDB Require Import Model.IndexPage Model.Pipeline Model.Meta Model.Migrate.
 Import ListNotations.
 Open Scope N_scope.
 
@@ -139,11 +139,50 @@ Definition run_c09 (l : list N) : list N :=
   | _ => err_marker
   end.
 
+(* ---- kind 20: migration. ncols (src dst forced)*ncols overwrite nkeys (present vtok rc)* ----
+   output: status 0, then per (col, key): value token + 1 (0 = absent), count (0 unless the destination counts) *)
+Fixpoint take_mcols (n : nat) (l : list N) : list (N * N) * list N :=
+  match n, l with
+  | S n', s :: d :: _ :: rest => let '(cs, r) := take_mcols n' rest in ((s, d) :: cs, r)
+  | _, _ => ([], l)
+  end.
+Fixpoint take_entries (n : nat) (kidx : N) (l : list N) : list (N * (bool * N * N)) * list N :=
+  match n, l with
+  | S n', p :: v :: rc :: rest =>
+      let '(es, r) := take_entries n' (kidx + 1) rest in ((kidx, (negb (p =? 0), v, rc)) :: es, r)
+  | _, _ => ([], l)
+  end.
+Fixpoint mig_cols (cols : list (N * N)) (c : N) (nkeys : nat) (l : list N) : list N :=
+  match cols with
+  | [] => []
+  | (sflags, dflags) :: rest =>
+      let '(es, r) := take_entries nkeys 0 l in
+      let dcf := {| c_btree := false; c_rc := N.testbit dflags 1; c_preimage := N.testbit dflags 0 |} in
+      let src : scontent := flat_map (fun e : N * (bool * N * N) => let '(k, (p, v, rc)) := e in if (p : bool) then [(k, (v, rc))] else []) es in
+      let M := migrate_col dcf c src in
+      flat_map (fun e : N * (bool * N * N) => match M (fst e) with
+                         | Some (v, n) => [v + 1; if c_rc dcf then n else 0]
+                         | None => [0; 0]
+                         end) es
+      ++ mig_cols rest (c + 1) nkeys r
+  end.
+Definition run_c20 (l : list N) : list N :=
+  match l with
+  | ncols :: rest =>
+      let '(cols, r) := take_mcols (N.to_nat ncols) rest in
+      match r with
+      | _ :: nkeys :: es => 0 :: mig_cols cols 0 (N.to_nat nkeys) es
+      | _ => err_marker
+      end
+  | _ => err_marker
+  end.
+
 Definition dispatch (l : list N) : list N :=
   match l with
   | 19 :: rest => run_c19 rest
   | 1 :: rest => run_hist rest
   | 17 :: rest => run_c17 rest
   | 9 :: rest => run_c09 rest
+  | 20 :: rest => run_c20 rest
   | _ => err_marker
   end.
